@@ -86,10 +86,9 @@ Qed.
 
 Lemma confined_step c s e s' out f :
   cfg_ok c -> step c s e = (s', out) -> In f out -> forged c f = true ->
-  known_C13_probe_router c s e = false ->
   hunted s (fedst f) = true.
 Proof.
-  intros Hc Hs Hin Hf Hk. destruct e; simpl in Hs.
+  intros Hc Hs Hin Hf. destruct e; simpl in Hs.
   - unfold start_hunt in Hs. destruct (hunt_has _ _); inversion Hs; subst; contradiction.
   - inversion Hs; subst; contradiction.
   - unfold stop_hunt in Hs. inversion Hs; subst; contradiction.
@@ -97,19 +96,20 @@ Proof.
   - destruct (wake_out _ _ _ _ _ _ Hs Hin) as [lp [_ [_ [_ [[Ht [Hfe _]]|[_ [Hfe _]]]]]]].
     + subst f. simpl. exact Ht.
     + subst f. rewrite restore_not_forged in Hf by auto. discriminate.
-  - unfold rx_arp in Hs. unfold known_C13_probe_router in Hk.
+  - unfold rx_arp in Hs.
     destruct (closed s) eqn:Hclo; [inversion Hs; subst; contradiction|].
-    cbn [negb andb] in Hk.
     destruct (classify p) eqn:Hcl; try (inversion Hs; subst; contradiction).
     + destruct (hunt_has (psmac p) (hunt s) && (ptip p =? router_ip c)) eqn:Hh;
         inversion Hs; subst; try contradiction.
       destruct Hin as [Hin|[]]; subst f. simpl. unfold hunted.
       apply andb_true_iff in Hh. tauto.
     + destruct (offer_of (psmac p) (offers s)) as [o|] eqn:Ho; [|inversion Hs; subst; contradiction].
-      destruct (negb (o =? ptip p) && in_lan c (ptip p)) eqn:Hd; inversion Hs; subst; try contradiction.
-      destruct Hin as [Hin|[]]; subst f. simpl.
+      destruct (negb (o =? ptip p) && (in_lan c (ptip p) && negb (ptip p =? router_ip c))) eqn:Hd;
+        inversion Hs; subst; try contradiction.
+      destruct Hin as [Hin|[]]; subst f.
+      (* the probe-reject never carries the router's address, so it is not forged *)
       unfold forged, probe_reject in Hf. simpl in Hf. apply andb_true_iff in Hf as [Hf1 _].
-      rewrite Hf1 in Hk. simpl in Hk. destruct (hunted _ (psmac p)); auto; try discriminate.
+      rewrite Hf1 in Hd. simpl in Hd. rewrite !andb_false_r in Hd. discriminate.
   - inversion Hs; subst; contradiction.
 Qed.
 
@@ -123,37 +123,21 @@ Proof.
   - eapply IH; eauto.
 Qed.
 
-Theorem confined_partial : forall c evs s e out f,
+Theorem confined : forall c evs s e out f,
   cfg_ok c ->
   In (s, e, out) (trace c init_state evs) -> In f out -> forged c f = true ->
-  known_C13_probe_router c s e = false ->
   hunted s (fedst f) = true.
 Proof.
-  intros c evs s e out f Hc Hin Hf Hfo Hk.
+  intros c evs s e out f Hc Hin Hf Hfo.
   apply trace_in in Hin as [s' Hs]. simpl in Hs. eapply confined_step; eauto.
 Qed.
 
-(* the full statement is false of the code: witness *)
 Definition wit_cfg : cfg := mkCfg 366503875925 439804651110 3232235531 3232235520 24.
   (* host 00:55:55:55:55:55, router 00:66:66:66:66:66 192.168.0.11, LAN 192.168.0.0/24 *)
 Definition wit_m3 : mac := 2199023255555.  (* 02:00:00:00:00:03 *)
-Definition wit_probe_router : list event :=
-  [SetOffer wit_m3 (Some 3232235522);
-   RxArp (mkPkt 1 wit_m3 wit_m3 0 0 3232235531)].
 
-Theorem confined_refuted :
-  exists c evs s e out f,
-    cfg_ok c /\ In (s, e, out) (trace c init_state evs) /\ In f out /\ forged c f = true /\
-    hunted s (fedst f) = false.
-Proof.
-  exists wit_cfg, wit_probe_router.
-  eexists; eexists; eexists; eexists.
-  split; [unfold cfg_ok, wit_cfg; simpl; lia|].
-  split; [vm_compute; right; left; reflexivity|].
-  split; [left; reflexivity|]. split; vm_compute; reflexivity.
-Qed.
-
-(* non-vacuity of confined_partial: a run with forged frames to hunted hosts outside the known class *)
+(* non-vacuity of confined: a run that does emit forged frames (to hunted hosts), and the history that
+   defeated the code before the repair of K1 (probe for the router address with another offer): now silent *)
 Definition wit_m1 : mac := 2199023255553.
 Definition wit_hunt_run : list event :=
   [StartHunt (mkAddr wit_m1 3232235522); Wake 0;
@@ -163,8 +147,10 @@ Example confined_nonvacuous :
   cfg_ok wit_cfg /\
   outputs wit_cfg init_state wit_hunt_run =
     [[]; [announce wit_cfg wit_m1]; [mkFrame 2 wit_m1 (host_mac wit_cfg) (router_ip wit_cfg) wit_m1 3232235522]] /\
-  forallb (fun x => negb (known_C13_probe_router wit_cfg (fst (fst x)) (snd (fst x))))
-          (trace wit_cfg init_state wit_hunt_run) = true.
+  outputs wit_cfg init_state
+    [SetOffer wit_m3 (Some 3232235522); RxArp (mkPkt 1 wit_m3 wit_m3 0 0 3232235531);
+     RxArp (mkPkt 1 wit_m3 wit_m3 0 0 3232235523)] =
+    [[]; []; [probe_reject wit_cfg (mkPkt 1 wit_m3 wit_m3 0 0 3232235523)]].
 Proof. split; [unfold cfg_ok; simpl; lia|]. split; vm_compute; reflexivity. Qed.
 
 (* ---------------------------------------------------------------- *)
@@ -211,7 +197,7 @@ Proof.
         destruct (0 =? ptip p) eqn:Et.
         -- assert (ptip p =? 0 = true) by lia. rewrite H. simpl. rewrite ?andb_false_r. reflexivity.
         -- assert (ptip p =? 0 = false) by lia. rewrite H. simpl.
-           destruct (offer_of (psmac p) (offers s)); [destruct (_ && _)|]; reflexivity.
+           destruct (offer_of (psmac p) (offers s)); [rewrite <- andb_assoc; destruct (_ && _)|]; reflexivity.
   - rewrite !andb_false_r. simpl.
     destruct (link_local (psip p)) eqn:Els; simpl.
     + rewrite ?andb_false_r. reflexivity.
@@ -409,7 +395,7 @@ Theorem stop_undone : forall c s0 a i mid post,
   step c s1 (Wake i) = (s2, [restore c (amac a)]) /\
   loop_is s2 i a false /\
   forall s e out f, In (s, e, out) (trace c s2 post) -> In f out -> forged c f = true ->
-    known_C13_probe_router c s e = false -> fedst f <> amac a.
+    fedst f <> amac a.
 Proof.
   intros c s0 a i mid post Hc Hl Hcl Hw Hclose Hst Hpost s1 s2.
   assert (Hinv : stop_inv i a s1).
@@ -420,7 +406,7 @@ Proof.
   destruct Hinv as [I1 [I2 I3]].
   split; [apply stop_wake_restores; auto|].
   split; [unfold s2, loop_is; simpl; apply (kill_same _ _ _ I1)|].
-  intros s e out f Hin Hf Hfo Hkn Heq.
+  intros s e out f Hin Hf Hfo Heq.
   assert (Hun : hunted s (amac a) = false).
   { apply (trace_inv (fun s => hunted s (amac a) = false) (fun e => negb (is_start_of (amac a) e)) c)
       with (evs := post) (s := s2) (x := (s, e, out)).
